@@ -451,7 +451,8 @@ impl UserRx {
             flushed_packets += 1;
         }
 
-        if flushed_bytes > 0 {
+        // Not `flushed_bytes > 0`: the end-of-stream marker has no bytes, and the reader waits for it too.
+        if flushed_packets > 0 {
             let waker = self.shared.locked.lock().reader_waker.take();
             if let Some(w) = waker {
                 w.wake();
